@@ -219,7 +219,7 @@ pub fn random(run: &mut Runner, seed: u64, count: u64) {
             continue;
         }
         let n = chunks.len();
-        let fault = *["none", "none", "drop", "dup", "board", "chip", "eom", "resize", "idgap", "swapids", "shiftids", "uneven"]
+        let fault = *["none", "none", "drop", "dup", "board", "chip", "eom", "resize", "idgap", "swapids", "shiftids", "uneven", "longlast"]
             .choose(&mut rng)
             .unwrap();
         let i = rng.gen_range(0..n);
@@ -254,6 +254,20 @@ pub fn random(run: &mut Runner, seed: u64, count: u64) {
                         if np.len() <= 65535 {
                             chunks[j + 1].payload = np;
                         }
+                    }
+                }
+            }
+            "longlast" => {
+                // the last two chunks sent as one: every non-final chunk has the common size, the final one is
+                // LONGER than the others (the statement only bounds the sizes of the non-final chunks)
+                if n >= 3 {
+                    let last = chunks.pop().unwrap();
+                    let m = chunks.len();
+                    if chunks[m - 1].payload.len() + last.payload.len() <= 65535 {
+                        chunks[m - 1].payload.extend(last.payload.iter());
+                        chunks[m - 1].flags = last.flags;
+                    } else {
+                        chunks.push(last);
                     }
                 }
             }
